@@ -757,7 +757,7 @@ func (ss *SpecSet) parseSpecText(file, pkgPath, text string) {
 			if curLemma != nil {
 				curLemma.Props = props
 			}
-		case "requires", "ensures", "assume":
+		case "requires", "ensures", "assume", "defines":
 			finish()
 			cl := &Clause{Kind: word, Text: rest, Props: props, Line: ln + 1, File: file}
 			if curLemma != nil {
